@@ -142,6 +142,15 @@ type relayFake struct {
 	e *env
 }
 
+func consecutive(v []uint64) bool {
+	for i := 1; i < len(v); i++ {
+		if v[i-1] == ^uint64(0) || v[i] != v[i-1]+1 {
+			return false
+		}
+	}
+	return true
+}
+
 func tri(v int) (bool, error) {
 	if v == 2 {
 		return false, errInjected
@@ -176,6 +185,7 @@ func (r *relayFake) Signing() chain.Signing                              { retur
 
 func (r *relayFake) submit(refund bool, headers []*bitcoin.BlockHeader) error {
 	hs := make([]string, len(headers))
+	var nums []uint64
 	for i, h := range headers {
 		if h == nil || h.PreviousBlockHeaderHash[31] != 0xC4 {
 			r.e.mu.Lock()
@@ -184,13 +194,19 @@ func (r *relayFake) submit(refund bool, headers []*bitcoin.BlockHeader) error {
 			hs[i] = "(-1)"
 			continue
 		}
-		hs[i] = fmt.Sprintf("%d", binary.LittleEndian.Uint64(h.PreviousBlockHeaderHash[0:8]))
+		v := binary.LittleEndian.Uint64(h.PreviousBlockHeaderHash[0:8])
+		nums = append(nums, v)
+		hs[i] = fmt.Sprintf("%d", v)
 	}
 	name := "Retarget"
 	if refund {
 		name = "RetargetWithRefund"
 	}
-	w := r.e.take(fmt.Sprintf("CSubmit %s [%s]", lib.Bool(refund), strings.Join(hs, "; ")),
+	list := "[" + strings.Join(hs, "; ") + "]"
+	if len(nums) == len(headers) && len(nums) > 2 && consecutive(nums) {
+		list = fmt.Sprintf("(zrange %d %d%%nat)", nums[0], len(nums)) // the same list, shorter to elaborate
+	}
+	w := r.e.take(fmt.Sprintf("CSubmit %s %s", lib.Bool(refund), list),
 		fmt.Sprintf("%s[%s]", name, strings.Join(hs, ",")), true)
 	if w == nil {
 		return errExhausted
@@ -325,12 +341,23 @@ func worldCoq(w world) string {
 var modeCtor = map[string]string{"loop": "MLoop", "epochs": "MEpochs", "verify": "MVerify", "next": "MNext"}
 
 func emit(em *lib.Emitter, id string, r result) {
+	// distinct worlds are bound once (let a0 := mkw ... in ...): elaborating the term in Coq is
+	// the dominant cost of a case, and consecutive worlds of a script are mostly identical
+	names := map[string]string{}
+	var lets []string
 	ws := make([]string, len(r.in.Script))
 	for i, w := range r.in.Script {
-		ws[i] = worldCoq(w)
+		t := worldCoq(w)
+		n, ok := names[t]
+		if !ok {
+			n = fmt.Sprintf("a%d", len(names))
+			names[t] = n
+			lets = append(lets, fmt.Sprintf("let %s := %s in ", n, t))
+		}
+		ws[i] = n
 	}
-	coq := fmt.Sprintf("{| c_dp := %s; c_mode := %s; c_ws := [%s]; c_trace := [%s]; c_res := %s; c_late := %d |}",
-		lib.Bool(r.in.DP), modeCtor[r.in.Mode], strings.Join(ws, "; "), strings.Join(r.trace, "; "), r.o.Res, r.o.Late)
+	coq := fmt.Sprintf("(%s{| c_dp := %s; c_mode := %s; c_ws := [%s]; c_trace := [%s]; c_res := %s; c_late := %d |})",
+		strings.Join(lets, ""), lib.Bool(r.in.DP), modeCtor[r.in.Mode], strings.Join(ws, "; "), strings.Join(r.trace, "; "), r.o.Res, r.o.Late)
 	submits, okSubmits, withHeaders := 0, 0, 0
 	for i, c := range r.trace {
 		if strings.HasPrefix(c, "CSubmit") {
@@ -338,7 +365,7 @@ func emit(em *lib.Emitter, id string, r result) {
 			if i < len(r.in.Script) && r.in.Script[i].SK {
 				okSubmits++
 			}
-			if !strings.HasSuffix(c, "[]") {
+			if !strings.HasSuffix(c, " []") {
 				withHeaders++
 			}
 		}
@@ -788,7 +815,7 @@ func main() {
 				}
 			}
 		}
-		n := o.Count(500, len(all))
+		n := o.Count(400, len(all))
 		perm := rng.Fork("enum").Perm(len(all))
 		for i := 0; i < n && i < len(all); i++ {
 			p := all[perm[i]]
@@ -802,7 +829,7 @@ func main() {
 	// --- structured random histories
 	{
 		r := rng.Fork("random")
-		nLoop := o.Count(420, 6000)
+		nLoop := o.Count(330, 6000)
 		for i := 0; i < nLoop; i++ {
 			pf := profile{pErr: r.Range(0, 120), pNotReady: r.Range(0, 60), pNotAuth: r.Range(0, 60), bigL: r.Chance(1, 6)}
 			if r.Chance(1, 3) {
@@ -820,7 +847,7 @@ func main() {
 			case i%21 == 4:
 				mode = "verify"
 			}
-			n := r.Range(4, 70)
+			n := r.Range(4, 56)
 			if mode == "verify" {
 				n = r.Range(0, 4)
 			}
